@@ -47,7 +47,28 @@ fn c09_case(rng: &mut Rng, release: bool) -> String {
         dev.set_station_address(if dup { *rng.pick(&[0x1001u16, 0x1000, 0x1003]) } else { rng.edgy(16) as u16 });
         devs.push(dev);
     }
-    let mut seg = Segment::chain(devs);
+    // a line, or (one network in three) a tree with junctions on ports 1..3; `devs` is in creation
+    // order, the ring order (and with it the station addresses) is the segment's
+    let tree = n >= 3 && rng.chance(1, 3);
+    let mut seg = if tree {
+        let mut parents: Vec<Option<(usize, u8)>> = vec![None];
+        let mut used: Vec<[bool; 4]> = vec![[true, false, false, false]];
+        for i in 1..n {
+            loop {
+                let p = rng.below(i as u64) as usize;
+                let free: Vec<u8> = (1..4u8).filter(|q| !used[p][*q as usize]).collect();
+                if free.is_empty() { continue; }
+                let q = *rng.pick(&free);
+                used[p][q as usize] = true;
+                parents.push(Some((p, q)));
+                break;
+            }
+            used.push([true, false, false, false]);
+        }
+        Segment::tree(devs, &parents)
+    } else { Segment::chain(devs) };
+    let ring = seg.ring();
+    let links: Vec<[bool; 4]> = ring.iter().map(|d| { let c = seg.children(*d); [true, c[1].is_some(), c[2].is_some(), c[3].is_some()] }).collect();
     let assign2 = assign.clone();
     let mut log = Vec::new();
     let r = std::panic::catch_unwind(std::panic::AssertUnwindSafe(|| net::run(async move {
@@ -56,21 +77,21 @@ fn c09_case(rng: &mut Rng, release: bool) -> String {
             Ok(match assign2.get(pos).copied().unwrap_or(0) { 0 => &g.a, 1 => &g.b, _ => &g.c })
         }).await
     }, &mut tx, &mut rx, &mut seg, &mut log, 400_000)));
-    let sim: Vec<String> = seg.devices.iter().map(|d| format!("{{\"station\":{},\"al\":{},\"name\":{:?},\"strings\":{},\"ident\":[{},{},{},{}],\"alias\":{},\"dc\":{}}}",
-        d.u16_at(REG_STATION_ADDR), d.mem[REG_AL_STATUS as usize] & 0x0f, d.desc.name, d.desc.with_strings, d.desc.vendor_id, d.desc.product_id, d.desc.revision, d.desc.serial, d.desc.alias,
-        match d.dc.kind { DcKind::None => 0, DcKind::Bits32 => 2, DcKind::Bits64 => 3 })).collect();
+    let sim: Vec<String> = ring.iter().enumerate().map(|(pos, i)| { let d = &seg.devices[*i]; format!("{{\"ports\":{:?},\"station\":{},\"al\":{},\"name\":{:?},\"strings\":{},\"ident\":[{},{},{},{}],\"alias\":{},\"dc\":{}}}",
+        links[pos], d.u16_at(REG_STATION_ADDR), d.mem[REG_AL_STATUS as usize] & 0x0f, d.desc.name, d.desc.with_strings, d.desc.vendor_id, d.desc.product_id, d.desc.revision, d.desc.serial, d.desc.alias,
+        match d.dc.kind { DcKind::None => 0, DcKind::Bits32 => 2, DcKind::Bits64 => 3 }) }).collect();
     let (res, groups) = match r {
         Err(_) => ("\"res\":\"PANIC\"".to_string(), String::new()),
         Ok(RunEnd::Done(Ok(g))) => {
             let one = |grp: &SubDeviceGroup<MAXDEV, MAXPDI>| format!("[{}]", grp.iter(md).map(|sd| { let id = sd.identity();
-                format!("{{\"addr\":{},\"name\":{:?},\"ident\":[{},{},{},{}],\"alias\":{},\"dc\":{}}}", sd.configured_address(), sd.name(), id.vendor_id, id.product_id, id.revision, id.serial, sd.alias_address(), dc_code(sd.dc_support())) }).collect::<Vec<_>>().join(","));
+                format!("{{\"ports\":{:?},\"addr\":{},\"name\":{:?},\"ident\":[{},{},{},{}],\"alias\":{},\"dc\":{}}}", sd.verif_ports_active(), sd.configured_address(), sd.name(), id.vendor_id, id.product_id, id.revision, id.serial, sd.alias_address(), dc_code(sd.dc_support())) }).collect::<Vec<_>>().join(","));
             ("\"res\":\"Ok\"".to_string(), format!("{},{},{}", one(&g.a), one(&g.b), one(&g.c)))
         }
         Ok(RunEnd::Done(Err(e))) => (format!("\"res\":\"Err\",\"err\":\"{:?}\"", e), String::new()),
         Ok(_) => ("\"res\":\"HANG\"".to_string(), String::new()),
     };
-    format!("{{\"kind\":\"c09\",\"release\":{},\"n\":{},\"max\":{},\"ng\":{},\"assign\":{:?},\"dup\":{},\"reported\":{},\"sim\":[{}],{},\"groups\":[{}],\"frames\":{}}}",
-        release, n, MAXDEV, ng, assign, dup, md.num_subdevices(), sim.join(","), res, groups, log.len())
+    format!("{{\"kind\":\"c09\",\"tree\":{},\"release\":{},\"n\":{},\"max\":{},\"ng\":{},\"assign\":{:?},\"dup\":{},\"reported\":{},\"sim\":[{}],{},\"groups\":[{}],\"frames\":{}}}",
+        tree, release, n, MAXDEV, ng, assign, dup, md.num_subdevices(), sim.join(","), res, groups, log.len())
 }
 
 // ---------------------------------------------------------------------------------------------
